@@ -166,6 +166,9 @@ def strata(V):
          [1, ["sweep", "T1", allz, True]], [1, ["sweep", "public", allz, False]]],
         [[0, ["newtable", "T1"]], [0, ["newtable", "T2"]], [0, ["init", "T2", "mass", False]],
          [0, ["init", "T1", "mass", False]], [0, ["sweep", "T2", allz, False]], [0, ["sweep", "T1", allz, False]]],
+        # a table exported into a namespace that already holds another table's names
+        [[0, ["newtable", "T1"]], [0, ["define_elements", "T1", "public"]], [0, ["define_elements", "public", "T1"]],
+         [0, ["define_elements", "T1", None]], [0, ["define_elements", "public", None]]],
         # an iteration still running while an isotope is inserted / the mass loader runs
         [[0, ["iter_interleaved", "public", 8, 2, "add_isotope", 11]], [0, ["iter", "public", 8]],
          [0, ["newtable", "T1"]], [0, ["iter_interleaved", "T1", 1, 1, "init_mass", False]],
@@ -261,6 +264,8 @@ def gen(seed, V, tier, index, bias=None):
             refs = [pick_atom(n, t) for _ in range(rng.choice([2, 3, 5]))]
             refs += [refs[0]]
             evs.append([n, ["container", t, refs, rng.choice(["deepcopy", "pickle:2", "pickle:4", "pickle:5"])]])
+        elif fam["lookup"] and r < 0.42 and rng.random() < 0.5:
+            evs.append([n, ["define_elements", t, rng.choice([None] + tables_of(n))]])
         elif fam["iter"] and r < 0.75 and rng.random() < 0.35:
             # an iteration still being consumed while an isotope is added / a loader runs
             Z = rng.choice([z for z in V.Z if V.els[z]["isotopes"]])
